@@ -20,6 +20,7 @@ import CookModel.Lemmas.DiagRefChecksExact
 import CookModel.Lemmas.DiagEmptyValueMore
 import CookModel.Lemmas.DiagSoundConv
 import CookModel.Lemmas.TableFacts
+import CookModel.Lemmas.FrontMatterStd
 /-
   C07  Diagnostics are sound, complete and placed on the offending construct.
 
@@ -2103,5 +2104,105 @@ theorem C07_sound_recipe_steps_all_extensions_real (env : Env) (hreal : env.cs =
     (parseRecipe (α := α) { env with ext := e } (render (pre ++ docSpec (stepsDoc doc)))).isValid = true ∧
     (parseRecipe (α := α) { env with ext := e } (render (pre ++ docSpec (stepsDoc doc)))).panic = none :=
   C07_sound_recipe_steps_all_extensions env (hws := hreal ▸ tbl_uws_sp) pre doc hadv hinl hpre hok hsimple hseps hw hfm hu hconv e
+
+/-! ### the diagnostics of the front-matter branch (`process_frontmatter`, Analysis/FrontMatterCore.lean) -/
+
+/-- **"Time overriden" is emitted exactly when, after the exclusions, the mapping has `time` and a
+    locatable `prep time` or `cook time`.**  For a YAML slice that decodes to the mapping `m`: let `kept`
+    be the mapping `process_frontmatter` stores (`m` without the entries for which the validator cleared
+    `include`; all of `m` without a validator — `C07_front_matter_kept`).  The warning is pushed iff
+    `kept` has the key `time` and, for `prep time` or for `cook time`, `kept` has the key AND
+    `yaml_find_key_position` finds a line of the text whose key text is that name.  (The second condition
+    is the code's: a key written in a way the line scan does not recognise — quoted, in a flow mapping,
+    as a `? key` entry — is in the mapping but gives no position, and then does not count; see the
+    example below.)  At most one such warning is pushed, after all the per-entry diagnostics. -/
+theorem C07_front_matter_time_overridden_iff (fe : FM.Env α) (yaml : Text) (m : List (SM.Y × SM.Y))
+    (hd : fe.decode yaml.text = .ok m) :
+    (∃ d ∈ (FM.processFrontmatter fe yaml).diags, d.kind = "time-overridden-fm") ↔
+    (FM.hasKey (FM.entries fe yaml.span.start yaml.text m).kept .time = true ∧
+      ((FM.hasKey (FM.entries fe yaml.span.start yaml.text m).kept .prepTime = true ∧
+          (FM.yamlFindKeyPosition yaml.text (SM.StdKey.canon .prepTime)).isSome = true) ∨
+       (FM.hasKey (FM.entries fe yaml.span.start yaml.text m).kept .cookTime = true ∧
+          (FM.yamlFindKeyPosition yaml.text (SM.StdKey.canon .cookTime)).isSome = true))) := by
+  rw [FM.fmx_process_time_iff fe yaml m hd, FM.fmx_timeLoc_isSome, FM.fmx_timeLoc_isSome]
+
+/-- what "after the exclusions" is: the stored mapping is the decoded one without the entries whose
+    validator call cleared `include` (`FM.keptBy`, the `n`-th call on the `n`-th entry), in their order -/
+theorem C07_front_matter_kept (fe : FM.Env α) (yamlStart : Nat) (text : Str) (m : List (SM.Y × SM.Y)) :
+    (FM.entries fe yamlStart text m).kept =
+      match fe.validator with
+      | none => m
+      | some f => FM.keptBy f 0 m :=
+  FM.fmx_entries_kept fe yamlStart text m
+
+/-- soundness of the warning, without the position condition: it is only ever pushed when the stored
+    mapping has `time` together with `prep time` or `cook time`; and a YAML error gives no such warning -/
+theorem C07_front_matter_time_overridden_sound (fe : FM.Env α) (yaml : Text)
+    (h : ∃ d ∈ (FM.processFrontmatter fe yaml).diags, d.kind = "time-overridden-fm") :
+    ∃ m, fe.decode yaml.text = .ok m ∧
+      FM.hasKey (FM.entries fe yaml.span.start yaml.text m).kept .time = true ∧
+      (FM.hasKey (FM.entries fe yaml.span.start yaml.text m).kept .prepTime = true ∨
+       FM.hasKey (FM.entries fe yaml.span.start yaml.text m).kept .cookTime = true) := by
+  cases hd : fe.decode yaml.text with
+  | err loc =>
+    obtain ⟨d, hm, hk⟩ := h
+    rw [FM.fmx_process_err fe yaml loc hd] at hm
+    simp only [List.mem_singleton] at hm
+    rw [hm] at hk
+    have hk' : ("yaml-error" : String) = "time-overridden-fm" := hk
+    exact absurd hk' (by decide)
+  | ok m =>
+    obtain ⟨h1, h2⟩ := (C07_front_matter_time_overridden_iff fe yaml m hd).mp h
+    exact ⟨m, rfl, h1, h2.elim (fun x => Or.inl x.1) (fun x => Or.inr x.1)⟩
+
+/-- **Malformed front matter** (catalogue item of the statement): when the YAML of the front matter
+    does not decode, the report of `parse` STARTS with one analysis-stage ERROR (`yaml-error`, labelled
+    at `yaml_offset + index` when the decoder gives a location), nothing else comes from the front
+    matter, the output is kept (an analysis error keeps the output) and its metadata map is empty. -/
+theorem C07_front_matter_yaml_error (env : Env) (fe : FM.Env α) (input : Str) (fm : FrontMatter)
+    (h : parseFrontmatter env.cs input = some fm) (loc : Option Nat) (hd : fe.decode fm.yamlText = .err loc)
+    (r1 : Col α) (h1 : (parseRecipe (α := α) env input).output = some r1) :
+    FM.fullDiags fe (parseRecipe (α := α) env input) =
+      #[⟨.error, .analysis, "yaml-error", FM.posLabel fm.yamlOffset loc⟩] ++ (parseRecipe (α := α) env input).diags ∧
+    FM.fullMetadata fe r1 = [] := by
+  obtain ⟨_, a2, a3, _⟩ := FM.fmd_full env fe input fm h r1 h1
+  have hd' : fe.decode (FM.docYaml fm).text = .err loc := by rw [FM.fmd_docYaml_text]; exact hd
+  rw [FM.fmx_process_err fe (FM.docYaml fm) loc hd', FM.fmd_docYaml_start] at a2 a3
+  exact ⟨by rw [a2], by rw [a3]; rfl⟩
+
+/-- **"Unsupported value for key" in a whole document with front matter** (the lift of
+    `C13_metadata_warning_iff_nothing`).  Input with front matter whose YAML decodes to `m`, default
+    options (no validator), `parse` has output: the metadata map of the result is `m`; the report is, in
+    mapping order, the warnings of the rejected standard entries, then "Time overriden" if any, then all
+    other diagnostics; and for the entry `Metadata::get k` finds under the canonical name of a standard
+    key `k`, the loop contributes a warning exactly when the `Metadata` accessor for `k` over the
+    result's map returns nothing. -/
+theorem C07_front_matter_std_warning_iff_nothing (env : Env) (fe : FM.Env α) (hv : fe.validator = none)
+    (input : Str) (fm : FrontMatter) (h : parseFrontmatter env.cs input = some fm)
+    (m : List (SM.Y × SM.Y)) (hd : fe.decode fm.yamlText = .ok m)
+    (r1 : Col α) (h1 : (parseRecipe (α := α) env input).output = some r1)
+    (k : SM.StdKey) (v : SM.Y) (hk : SM.metaGet k m = some v) :
+    FM.fullMetadata fe r1 = m ∧
+    FM.fullDiags fe (parseRecipe (α := α) env input) =
+      (m.flatMap (FM.entryWarning fe fm.yamlOffset fm.yamlText) ++ FM.timeWarn fm.yamlOffset fm.yamlText m).toArray ++
+        (parseRecipe (α := α) env input).diags ∧
+    (SM.Y.str k.canon, v) ∈ m ∧
+    (FM.entryWarning fe fm.yamlOffset fm.yamlText (SM.Y.str k.canon, v) ≠ [] ↔
+      SM.metaGives fe.conv fe.alpha k (FM.fullMetadata fe r1) = false) := by
+  obtain ⟨e1, e2⟩ := FM.fms_doc_report env fe hv input fm h m hd r1 h1
+  exact ⟨e1, e2, FM.fmx_mapGet_mem hk, by rw [e1]; exact FM.fms_entryWarning_iff fe _ _ k m v hk⟩
+
+/-! non-vacuity and the position condition: `time` + a QUOTED `"prep time"` key — both keys are in the
+    mapping, but the line scan does not recognise the quoted key, so no "Time overriden" is pushed; with
+    the plain spelling it is (labels: `prep time` line, then `time` line) -/
+def C07_exFm (α : Type) : FM.Env α :=
+  ⟨fun _ => .ok [(.str "time".toList, .num ⟨some 60, "60".toList⟩), (.str "prep time".toList, .num ⟨some 5, "5".toList⟩)],
+   none, ⟨[], fun _ => none⟩, fun _ => false⟩
+
+example : (FM.processFrontmatter (C07_exFm Rat) (Text.fromStr "time: 60\n\"prep time\": 5\n".toList 4)).diags = [] := by decide
+example : (FM.processFrontmatter (C07_exFm Rat) (Text.fromStr "time: 60\nprep time: 5\n".toList 4)).diags =
+    [⟨.warning, .analysis, "time-overridden-fm", [⟨13, 13⟩, ⟨4, 4⟩]⟩] := by decide
+example : FM.keptBy (fun n _ _ => ⟨.ok, n != 0, true⟩) 0 [(SM.Y.null, SM.Y.null), (SM.Y.bool, SM.Y.null)] =
+    [(SM.Y.bool, SM.Y.null)] := rfl
 
 end Cook
